@@ -283,17 +283,21 @@ class SymInt:
         c = Ctx.cur
         if c is None:
             raise Undecided("int() of a symbolic integer outside an exploration")
-        s_ = z3.Solver()
-        s_.set("timeout", 500)
-        s_.add(c.pc())
-        if s_.check() == z3.sat:
-            v = s_.model().eval(self.t, model_completion=True)
-            if z3.is_int_value(v):
-                c.__dict__["display_concretisations"] = c.__dict__.get("display_concretisations", 0) + 1
-                # ghost log: which term was rendered as which digits (lets a stand-in for open() recover the term behind a formatted name)
-                c.__dict__.setdefault("display_log", []).append((self.t, v.as_long()))
-                return v.as_long()
-        return 0
+        val = 0
+        for budget in (500, 5000):
+            s_ = z3.Solver()
+            s_.set("timeout", budget)
+            s_.add(c.pc())
+            if s_.check() == z3.sat:
+                v = s_.model().eval(self.t, model_completion=True)
+                if z3.is_int_value(v):
+                    val = v.as_long()
+                    break
+        c.__dict__["display_concretisations"] = c.__dict__.get("display_concretisations", 0) + 1
+        # ghost log: which term was rendered as which digits (lets a stand-in for open() recover the term behind a formatted name);
+        # logged also when no witness was found in time (the digits are then 0): the term is what consumers rely on
+        c.__dict__.setdefault("display_log", []).append((self.t, val))
+        return val
 
     def __repr__(self):
         return "SymInt(%s)" % self.t
